@@ -51,6 +51,8 @@ enum Fam {
     ZAdaptPlain,
     // references / boxes
     AdaptRefBox,
+    // structures whose backend was replaced with `map` after construction
+    Mapped,
     // nestings
     Nest(usize),
     NestSmall(usize, usize), // (kind, rank_small selector)
@@ -144,6 +146,7 @@ fn all_variants() -> Vec<Variant> {
     add("SelectAdapt(BitVec)/unchecked".into(), Fam::AdaptPlain);
     add("SelectZeroAdapt(BitVec)/unchecked".into(), Fam::ZAdaptPlain);
     add("&SelectAdapt,Box<SelectAdapt>,SelectAdapt(&AddNumBits)".into(), Fam::AdaptRefBox);
+    add("map(backend -> Rank9 / RankSmall)".into(), Fam::Mapped);
     for (k, n) in NEST_NAMES.iter().enumerate() {
         add(n.to_string(), Fam::Nest(k));
     }
@@ -428,6 +431,47 @@ fn run_variant(c: &mut Case, v: &Variant, bv: BV, q: &Q) {
                 let b = &bv;
                 if let Some(s) = build(c, q, &d, || if l == usize::MAX { SelectZeroAdapt::new(b, m) } else { SelectZeroAdapt::with_inv(b, l, m) }) {
                     zsel_unchecked(c, &s, q, &d);
+                }
+            }
+        }
+        Fam::Mapped => {
+            // `map` is the documented way to put a rank structure under an existing
+            // selector: the mapped structure must answer like a freshly built one
+            let params: [(usize, usize); 5] = [(usize::MAX, 3), (0, 0), (3, 3), (10, 3), (13, 5)];
+            for &(l, m) in params.iter() {
+                let d = if l == usize::MAX { format!("SelectAdapt::new(AddNumBits(b), {}).map(|x| Rank9::new(x.into_inner()))", m) } else { format!("SelectAdapt::with_inv(AddNumBits(b), {}, {}).map(|x| Rank9::new(x.into_inner()))", l, m) };
+                let b = bv.clone();
+                if let Some(s) = build(c, q, &d, move || {
+                    let s = if l == usize::MAX { SelectAdapt::new(AddNumBits::from(b), m) } else { SelectAdapt::with_inv(AddNumBits::from(b), l, m) };
+                    unsafe { s.map(|x| Rank9::new(x.into_inner())) }
+                }) {
+                    sel_rt(c, &s, q, &d);
+                }
+                let d = format!("SelectZeroAdapt (L={}, M={}) over AddNumBits(b), then .map(|x| RankSmall<2,9>::new(x.into_inner()))", l, m);
+                let b = bv.clone();
+                if let Some(s) = build(c, q, &d, move || {
+                    let s = if l == usize::MAX { SelectZeroAdapt::new(AddNumBits::from(b), m) } else { SelectZeroAdapt::with_inv(AddNumBits::from(b), l, m) };
+                    unsafe { s.map(|x| RankSmall::<2, 9, _, _, _>::new(x.into_inner())) }
+                }) {
+                    zsel_rt(c, &s, q, &d);
+                }
+            }
+            {
+                let d = "SelectAdaptConst::new(AddNumBits(b)).map(|x| Rank9::new(x.into_inner()))";
+                let b = bv.clone();
+                if let Some(s) = build(c, q, d, move || unsafe { SelectAdaptConst::<_, _>::new(AddNumBits::from(b)).map(|x| Rank9::new(x.into_inner())) }) {
+                    sel_rt(c, &s, q, d);
+                }
+                let d = "SelectZeroAdaptConst::new(AddNumBits(b)).map(|x| Rank9::new(x.into_inner()))";
+                let b = bv.clone();
+                if let Some(s) = build(c, q, d, move || unsafe { SelectZeroAdaptConst::<_, _>::new(AddNumBits::from(b)).map(|x| Rank9::new(x.into_inner())) }) {
+                    zsel_rt(c, &s, q, d);
+                }
+                // a nested pair, both layers mapped: zero selector over one selector over Rank9
+                let d = "SelectZeroAdapt(SelectAdapt(AddNumBits(b))) with the inner backend mapped to Rank9";
+                let b = bv.clone();
+                if let Some(s) = build(c, q, d, move || unsafe { SelectZeroAdapt::new(SelectAdapt::new(AddNumBits::from(b), 3), 3).map(|inner| inner.map(|x| Rank9::new(x.into_inner()))) }) {
+                    both_rt(c, &s, q, d);
                 }
             }
         }
